@@ -1,2 +1,49 @@
-(* C09 — placeholder until the index invariant lands. *)
-From Odf Require Import model.Base model.Dom.
+(* C09 — document-wide lookups always agree with the current tree. *)
+From Odf Require Import model.Base model.Dom proofs.DomProofs proofs.IndexProofs.
+
+(* Idx top h: the state of the document's lookups agrees with the tree of h whose root is top (IndexProofs.Idx: index = the
+   owned elements, each once; ownership constant along parent links and meaning "the parent chain ends at top"; the style
+   dictionary only holds owned, named style:style children of office:styles / office:automatic-styles).
+   attached h top n = the parent chain of n reaches top. *)
+
+(* after ANY history of appendChild / insertBefore / removeChild / addElement / addText / addCDATA over any nodes (text nodes
+   included; whole subtrees moved, removed, re-added) that does not make the document root a child *)
+Theorem C09_every_history : forall top ops h, WF h -> Idx top h -> ops_ok h ops -> ops_keep_top top ops ->
+  WF (run h ops) /\ Idx top (run h ops).
+Proof. exact run_idx. Qed.
+Print Assumptions C09_every_history.
+
+(* ... getElementsByType returns exactly the elements of that type attached to the document, each once *)
+Theorem C09_elements_by_type : forall top h, Idx top h -> forall q,
+  NoDup (get_elements_by_type h q) /\
+  forall n, In n (get_elements_by_type h q) <-> kind (nodes h n) = KElem q /\ attached h top n.
+Proof. exact index_exact. Qed.
+Print Assumptions C09_elements_by_type.
+
+(* ... getStyleByName returns nothing but a style of that name that is in the document *)
+Theorem C09_style_by_name_sound : forall top h nm n, Idx top h -> get_style_by_name h nm = Some n ->
+  kind (nodes h n) = KElem Q_STYLE /\ sname (nodes h n) = Some nm /\ attached h top n /\ style_parent_ok h n = true.
+Proof. exact style_lookup_sound. Qed.
+Print Assumptions C09_style_by_name_sound.
+
+(* ... and, along histories in which no two registered styles of the document ever share a name (C11 is about the others),
+   it returns the style of that name whenever there is one *)
+Theorem C09_style_by_name_complete : forall top ops h, WF h -> Idx top h -> Comp h -> ops_ok h ops -> ops_keep_top top ops ->
+  ops_uniq h ops -> forall n nm, registrable (nodes (run h ops)) n nm -> get_style_by_name (run h ops) nm = Some n.
+Proof. intros top ops h HW HI HC Ho Ht Hu. exact (run_comp top ops h HW HI HC Ho Ht Hu). Qed.
+Print Assumptions C09_style_by_name_complete.
+
+(* one step, as used above: the invariant survives every single operation, raising or not *)
+Theorem C09_step : forall top h o, WF h -> Idx top h -> op_ok h o -> op_keeps_top top o -> Idx top (heap_of (step h o)).
+Proof. exact step_idx. Qed.
+Print Assumptions C09_step.
+
+(* the subtree walks of the model, bounded by the number of nodes, reach every descendant (pigeonhole) *)
+Theorem C09_walk_complete : forall f N c m p, closed f N -> parent (f m) = Some p -> below f N c p = true -> below f N c m = true.
+Proof. exact below_step_down. Qed.
+Print Assumptions C09_walk_complete.
+
+(* the hypotheses are satisfiable: a document root with free nodes around it *)
+Theorem C09_start : forall a b, WF (heap1 a b) /\ Idx 0 (heap1 a b) /\ Comp (heap1 a b).
+Proof. intros a b. exact (conj (heap1_wf a b) (conj (heap1_idx a b) (heap1_comp a b))). Qed.
+Print Assumptions C09_start.
